@@ -114,6 +114,21 @@ def build_case(rnd):
                               initial_value=Literal("8", INTEGER_TYPE))
         pending.append(kind_sym)
         desc.append("kind")
+    # --- constants OF that kind whose initial value does not mention it
+    kind_consts = []
+    if kind_sym is not None:
+        rkind = ScalarType(ScalarType.Intrinsic.REAL, kind_sym)
+        if rnd.random() < 0.6:
+            kind_consts.append((DataSymbol(
+                "ac", ArrayType(rkind, [3]), is_constant=True,
+                initial_value=Literal("2.0", REAL_TYPE)), 2, True))
+            desc.append("kind_array_const")
+        if rnd.random() < 0.5:
+            kind_consts.append((DataSymbol(
+                "rc", rkind, is_constant=True,
+                initial_value=Literal("3.0", REAL_TYPE)), 3, False))
+            desc.append("kind_scalar_const")
+        pending += [kc[0] for kc in kind_consts]
     # --- variables whose types depend on constants
     out_sym = DataSymbol("res", ArrayType(INTEGER_TYPE, [
         ArrayType.Extent.ATTRIBUTE]), interface=ArgumentInterface(
@@ -175,6 +190,11 @@ def build_case(rnd):
             store(IntrinsicCall.create(IntrinsicCall.Intrinsic.SIZE,
                                        [Reference(v)]),
                   values[v.datatype.shape[0].upper.symbol.name])
+    for ksym, kval, is_arr in kind_consts:
+        from psyclone.psyir.nodes import IntrinsicCall
+        ref = ArrayReference.create(ksym, [Literal("2", INTEGER_TYPE)]) \
+            if is_arr else Reference(ksym)
+        store(IntrinsicCall.create(IntrinsicCall.Intrinsic.INT, [ref]), kval)
     if tsym is not None:
         rt.addchild(Assignment.create(
             StructureReference.create(bvar, ["ival"]),
@@ -190,6 +210,15 @@ def build_case(rnd):
             st.add(outer)
             rt.addchild(Assignment.create(Reference(outer),
                                           Literal("100", INTEGER_TYPE)))
+        # a module-level variable named like the first candidate for the
+        # renamed inner symbol: it must not be captured
+        modvar = None
+        if rnd.random() < 0.5:
+            desc.append("outer_scope_candidate_name")
+            modvar = DataSymbol(base + "_1", INTEGER_TYPE)
+            cont.symbol_table.add(modvar)
+            rt.addchild(Assignment.create(Reference(modvar),
+                                          Literal("500", INTEGER_TYPE)))
         ivar = st.new_symbol("ii", symbol_type=DataSymbol,
                              datatype=INTEGER_TYPE)
         inner_name = rnd.choice([base, base.upper(), base.capitalize()])
@@ -207,6 +236,8 @@ def build_case(rnd):
             Reference(isym)))
         expected.append(200)
         idx += 1
+        if modvar is not None:
+            store(Reference(modvar), 500)
         if outer is not None:
             store(Reference(outer), 100)
         elif base == "c0":
